@@ -1,5 +1,5 @@
 (* Lemmas for C02 over Model/Registry.v: invariants of every reachable state (induction over histories). *)
-From Coq Require Import NArith List Bool Lia.
+From Coq Require Import NArith Arith List Bool Lia.
 From V Require Import Model.Registry.
 Import ListNotations.
 Open Scope N_scope.
@@ -336,14 +336,16 @@ Proof.
   - unfold do_register_type. destruct (has_type s t); simpl; constructor.
   - unfold do_insert. destruct (negb (has_type s t)); simpl; [constructor|].
     destruct (coll_type s c) as [[|]|] eqn:Ec; simpl; try constructor.
-    destruct (negb (forallb _ _)); simpl; [constructor|]. destruct items as [|it items]; simpl fst; [constructor|].
+    destruct (negb (forallb _ _)); simpl; [constructor|]. destruct items as [|it items]; [simpl; constructor|].
+    cbv iota. remember (it :: items) as its eqn:Eits. clear Eits.
     match goal with |- context [fold_opt ds_insert ?a ?b] => destruct (fold_opt ds_insert a b) as [ds'|] eqn:Ed end; simpl; [|constructor].
     match goal with |- context [fold_opt tag_insert (tags s) ?b] => destruct (fold_opt tag_insert (tags s) b) as [tg'|] eqn:Et end; simpl; [|constructor].
-    apply ch_add with (rows := map (fun it0 => Row c t (fst it0) (snd it0)) (it :: items)); auto.
+    apply ch_add with (rows := map (fun it0 => Row c t (fst it0) (snd it0)) its); auto.
     + rewrite map_map. simpl. exact Ed.
     + intros r Hr. apply in_map_iff in Hr. destruct Hr as [x [<- _]]. reflexivity.
     + apply incl_refl.
-  - unfold do_import. destruct refs as [|f refs]; simpl fst; [constructor|].
+  - unfold do_import. destruct refs as [|f refs]; [simpl; constructor|].
+    cbv iota. remember (f :: refs) as rfs eqn:Erfs. clear Erfs.
     destruct (coll_type s c) as [[|]|] eqn:Ec; simpl; try constructor.
     destruct (negb (forallb _ _)); simpl; [constructor|]. destruct (negb (forallb _ _)); simpl; [constructor|].
     destruct (fold_opt tag_insert [] _); simpl; [|constructor].
@@ -351,7 +353,7 @@ Proof.
     destruct (existsb _ _); simpl; [constructor|].
     match goal with |- context [fold_opt ds_insert ?a ?b] => destruct (fold_opt ds_insert a b) as [ds'|] eqn:Ed end; simpl; [|constructor].
     match goal with |- context [fold_opt tag_insert (tags s) ?b] => destruct (fold_opt tag_insert (tags s) b) as [tg'|] eqn:Et end; simpl; [|constructor].
-    apply ch_add with (rows := map (ref_row c) (filter (fun f0 => negb (alive s (f_id f0))) (f :: refs))); auto.
+    apply ch_add with (rows := map (ref_row c) (filter (fun f0 => negb (alive s (f_id f0))) rfs)); auto.
     + rewrite map_map. simpl. exact Ed.
     + intros r Hr. apply in_map_iff in Hr. destruct Hr as [x [<- _]]. reflexivity.
     + intros r Hr. apply in_map_iff in Hr. destruct Hr as [x [<- Hx]]. apply filter_In in Hx.
@@ -370,8 +372,8 @@ Proof.
                 (types_in_order_nonempty f refs)) as [e ->]. simpl; constructor.
     + destruct (disassoc_groups _ _ _ _ _ _) eqn:E; simpl; [|constructor].
       eapply ch_disassoc; eauto.
-  - unfold do_remove_datasets. destruct ids; simpl; constructor.
-  - unfold do_remove_collection. destruct (coll_type s c) eqn:E; simpl; [|constructor].
+  - unfold do_remove_datasets. destruct ids as [|i0 ids]; [simpl; constructor|]. cbv iota. cbn [fst]. apply ch_rmds.
+  - unfold do_remove_collection. destruct (coll_type s c) eqn:E; cbn [fst]; [|constructor].
     eapply ch_rmcoll; eauto.
 Qed.
 
@@ -401,4 +403,206 @@ Proof.
     rewrite E. apply ds_find_some in Hx. destruct Hx as [Hin <-]. apply in_map; auto.
   - apply ds_find_filter in Hx'; auto. congruence.
   - apply ds_find_filter in Hx'; auto. congruence.
+Qed.
+
+Lemma step_def_constant_p : forall h o i x x',
+  ds_find (datasets (run h)) i = Some x -> ds_find (datasets (exec (run h) o)) i = Some x' -> x' = x.
+Proof.
+  intros h o i x x' H H'. eapply changed_def_constant; eauto.
+  - unfold exec. apply step_changed.
+  - apply ids_run.
+Qed.
+
+Lemma one_run_for_life_p : forall h h' i,
+  (forall k, (k <= length h')%nat -> alive (run (h ++ firstn k h')) i = true) ->
+  run_of (run (h ++ h')) i = run_of (run h) i.
+Proof.
+  intros h h' i. induction h' as [|o h' IH] using rev_ind; intros A.
+  - rewrite app_nil_r. reflexivity.
+  - rewrite <- IH.
+    + rewrite app_assoc, run_snoc.
+      pose proof (A (length h') ltac:(rewrite app_length; lia)) as A1.
+      pose proof (A (length (h' ++ [o])) ltac:(lia)) as A2.
+      rewrite firstn_app, firstn_all, PeanoNat.Nat.sub_diag in A1. simpl in A1. rewrite app_nil_r in A1.
+      rewrite firstn_all, app_assoc, run_snoc in A2.
+      unfold alive in A1, A2. unfold run_of.
+      destruct (ds_find (datasets (run (h ++ h'))) i) as [x|] eqn:E1; [|discriminate].
+      destruct (ds_find (datasets (exec (run (h ++ h')) o)) i) as [x'|] eqn:E2; [|discriminate].
+      rewrite (step_def_constant_p _ _ _ _ _ E1 E2). reflexivity.
+    + intros k Hk. specialize (A k ltac:(rewrite app_length; lia)).
+      rewrite firstn_app in A. replace (k - length h')%nat with 0%nat in A by lia. simpl in A.
+      rewrite app_nil_r in A. exact A.
+Qed.
+
+(* ---- summaries over-approximate the contents ------------------------------------------------------ *)
+Lemma pair_eqb_true : forall a b, pair_eqb a b = true <-> a = b.
+Proof.
+  intros [a1 a2] [b1 b2]; unfold pair_eqb; simpl. rewrite andb_true_iff, !N.eqb_eq.
+  split; [intros [-> ->]; auto | intros H; inversion H; auto].
+Qed.
+Lemma mem2_in : forall p l, mem2 p l = true <-> In p l.
+Proof.
+  intros p l; unfold mem2. rewrite existsb_exists. split.
+  - intros [x [Hx E]]. apply pair_eqb_true in E. subst; auto.
+  - intros H; exists p; split; auto. apply pair_eqb_true; auto.
+Qed.
+Lemma mem2_add2 : forall p x l, mem2 p (add2 x l) = true <-> p = x \/ mem2 p l = true.
+Proof.
+  intros p x l; unfold add2. destruct (mem2 x l) eqn:E.
+  - split; auto. intros [->|H]; auto.
+  - rewrite !mem2_in. simpl. split; intros [H|H]; auto.
+Qed.
+
+Lemma fold_add2_mono : forall {A} (f : A -> N * N) rows st p,
+  mem2 p st = true -> mem2 p (fold_left (fun acc r => add2 (f r) acc) rows st) = true.
+Proof.
+  intros A f rows; induction rows as [|r rows IH]; simpl; intros st p H; auto.
+  apply IH. apply mem2_add2; auto.
+Qed.
+Lemma fold_add2_in : forall {A} (f : A -> N * N) rows st r,
+  In r rows -> mem2 (f r) (fold_left (fun acc r => add2 (f r) acc) rows st) = true.
+Proof.
+  intros A f rows; induction rows as [|a rows IH]; simpl; intros st r H; [contradiction|].
+  destruct H as [->|H]; [|apply IH; auto]. apply fold_add2_mono. apply mem2_add2; auto.
+Qed.
+
+Definition covered (st sg : list (N * N)) (r : row) : Prop :=
+  mem2 (r_coll r, r_type r) st = true /\ mem2 (r_coll r, gov_of (r_data r)) sg = true.
+Definition Summ (s : state) : Prop := forall r, In r (tags s) -> covered (summ_t s) (summ_g s) r.
+
+Lemma covered_add : forall c rows0 st sg r, In r rows0 -> r_coll r = c ->
+  covered (summ_add_rows c rows0 st) (summ_add_govs c rows0 sg) r.
+Proof.
+  intros c rows0 st sg r H <-. split.
+  - apply (fold_add2_in (fun x => (r_coll r, r_type x)) rows0 st r H).
+  - apply (fold_add2_in (fun x => (r_coll r, gov_of (r_data x))) rows0 sg r H).
+Qed.
+Lemma covered_mono : forall c rows0 st sg r, covered st sg r ->
+  covered (summ_add_rows c rows0 st) (summ_add_govs c rows0 sg) r.
+Proof. intros c rows0 st sg r [H1 H2]; split; apply fold_add2_mono; auto. Qed.
+
+Lemma fold_assoc_row_in : forall s c g tg tg', fold_opt (assoc_row s c) tg g = Some tg' ->
+  forall x, In x tg' -> In x tg \/ In x (map (ref_row c) g).
+Proof.
+  induction g as [|f g IH]; simpl; intros tg tg' H x Hx.
+  - inversion H; subst; auto.
+  - unfold assoc_row at 1 in H. destruct (alive s (f_id f)); [|discriminate].
+    destruct (tag_upsert tg (ref_row c f)) as [tg1|] eqn:E; [|discriminate].
+    apply tag_upsert_some in E. destruct E as [-> _].
+    destruct (IH _ _ H x Hx) as [[<-|H1]|H1]; auto.
+    apply filter_In in H1. tauto.
+Qed.
+
+Lemma assoc_groups_summ : forall s c refs ts tg st sg tg' st' sg',
+  assoc_groups s c TAGGED refs ts (tg, st, sg) = inl (tg', st', sg') ->
+  (forall r, In r tg -> covered st sg r) -> (forall r, In r tg' -> covered st' sg' r).
+Proof.
+  induction ts as [|t ts IH]; simpl; intros tg st sg tg' st' sg' H C.
+  - inversion H; subst; auto.
+  - destruct (negb (has_type s t)); [discriminate|].
+    destruct (fold_opt (assoc_row s c) tg (group refs t)) as [tg1|] eqn:E; [|discriminate].
+    eapply IH; eauto. intros r Hr. destruct (fold_assoc_row_in _ _ _ _ _ E r Hr) as [H1|H1].
+    + apply covered_mono; auto.
+    + apply covered_add; auto. apply in_map_iff in H1. destruct H1 as [f [<- _]]. reflexivity.
+Qed.
+
+Lemma disassoc_groups_incl : forall s c refs ts tg tg',
+  disassoc_groups s c TAGGED refs ts tg = inl tg' -> forall x, In x tg' -> In x tg.
+Proof.
+  induction ts as [|t ts IH]; simpl; intros tg tg' H x Hx.
+  - inversion H; subst; auto.
+  - destruct (negb (has_type s t)); [discriminate|].
+    specialize (IH _ _ H x Hx). apply filter_In in IH. tauto.
+Qed.
+
+Lemma mem2_filter_other : forall a b c l, mem2 (a, b) l = true -> a <> c ->
+  mem2 (a, b) (filter (fun p => negb (fst p =? c)) l) = true.
+Proof.
+  intros a b c l H Hn. apply mem2_in. apply mem2_in in H. apply filter_In. split; auto.
+  simpl. apply negb_true_iff. apply N.eqb_neq; auto.
+Qed.
+
+Lemma changed_summ : forall s s', Changed s s' -> Summ s -> Summ s'.
+Proof.
+  intros s s' C S. destruct C; unfold Summ in *; simpl; auto.
+  - apply fold_tag_insert in H1. destruct H1 as [-> _]. intros r Hr. apply in_app_or in Hr.
+    destruct Hr as [Hr|Hr].
+    + apply in_rev in Hr. apply covered_add; auto.
+    + apply covered_mono; auto.
+  - eapply assoc_groups_summ; eauto.
+  - intros r Hr. apply S. eapply disassoc_groups_incl; eauto.
+  - intros r Hr. apply filter_In in Hr. apply S; tauto.
+  - intros r Hr. apply filter_In in Hr. destruct Hr as [Hr Hc].
+    apply negb_true_iff, orb_false_iff in Hc. destruct Hc as [Hc _]. apply N.eqb_neq in Hc.
+    destruct (S r Hr). split; apply mem2_filter_other; auto.
+Qed.
+
+Lemma summ_run : forall h, Summ (run h).
+Proof. apply reach_ind; [intros r [] | intros; eapply changed_summ; eauto using step_changed]. Qed.
+
+Lemma summary_over_approx_p : forall h c t d i, In (Row c t d i) (tags (run h)) ->
+  mem2 (c, t) (summ_t (run h)) = true /\ mem2 (c, gov_of d) (summ_g (run h)) = true.
+Proof. intros h c t d i H. apply (summ_run h _ H). Qed.
+
+Lemma filter_nil : forall {A} (f : A -> bool) l, (forall x, In x l -> f x = false) -> filter f l = [].
+Proof.
+  intros A f l; induction l as [|a l IH]; simpl; intros H; auto.
+  rewrite (H a) by auto. apply IH. intros; apply H; auto.
+Qed.
+
+Lemma pruned_query_eq_p : forall h c t g, query_with_summaries (run h) c t g = query_all (run h) c t g.
+Proof.
+  intros h c t g. unfold query_with_summaries.
+  destruct (mem2 (c, t) (summ_t (run h)) && mem2 (c, g) (summ_g (run h))) eqn:E; [reflexivity|].
+  symmetry. unfold query_all. apply filter_nil. intros p Hp. unfold contents in Hp.
+  apply in_map_iff in Hp. destruct Hp as [x [<- Hx]]. apply filter_In in Hx. destruct Hx as [Hx Hc].
+  apply andb_true_iff in Hc. destruct Hc as [Hc Ht]. apply N.eqb_eq in Hc. apply N.eqb_eq in Ht.
+  destruct (summ_run h x Hx) as [S1 S2]. simpl. destruct (gov_of (r_data x) =? g) eqn:G; [|reflexivity].
+  apply N.eqb_eq in G. rewrite Hc, Ht in S1. rewrite Hc, G in S2. rewrite S1, S2 in E. discriminate.
+Qed.
+
+(* ---- frame: a TAGGED collection's contents change only at associate / disassociate / remove steps -- *)
+Lemma add_frame : forall rows tg tg' c c' t, fold_opt tag_insert tg rows = Some tg' ->
+  (forall r, In r rows -> r_coll r = c) -> c <> c' ->
+  filter (fun x => (r_coll x =? c') && (r_type x =? t)) tg' = filter (fun x => (r_coll x =? c') && (r_type x =? t)) tg.
+Proof.
+  intros rows tg tg' c c' t H Hc Hn. apply fold_tag_insert in H. destruct H as [-> _].
+  rewrite filter_app. rewrite filter_nil; [reflexivity|].
+  intros x Hx. apply in_rev in Hx. rewrite (Hc x Hx).
+  apply andb_false_iff. left. apply N.eqb_neq; auto.
+Qed.
+
+Definition touches_tagged (o : op) : bool :=
+  match o with
+  | Associate _ _ | Disassociate _ _ | RemoveDatasets _ | RemoveCollection _ => true
+  | _ => false
+  end.
+
+Lemma tagged_frame_p : forall s o c' t, coll_type s c' = Some TAGGED -> touches_tagged o = false ->
+  contents (exec s o) c' t = contents s c' t.
+Proof.
+  intros s o c' t HT Ho. unfold exec. destruct o; try discriminate; simpl.
+  - unfold do_register. destruct (coll_type s c); reflexivity.
+  - unfold do_register. destruct (coll_type s c); reflexivity.
+  - unfold do_register_type. destruct (has_type s t0); reflexivity.
+  - unfold do_insert. destruct (negb (has_type s t0)); [reflexivity|].
+    destruct (coll_type s c) as [[|]|] eqn:Ec; try reflexivity.
+    destruct (negb (forallb _ _)); [reflexivity|]. destruct items as [|it items]; [reflexivity|].
+    cbv iota. remember (it :: items) as its eqn:Eits. clear Eits.
+    match goal with |- context [fold_opt ds_insert ?a ?b] => destruct (fold_opt ds_insert a b) as [ds'|] eqn:Ed end; [|reflexivity].
+    match goal with |- context [fold_opt tag_insert (tags s) ?b] => destruct (fold_opt tag_insert (tags s) b) as [tg'|] eqn:Et end; [|reflexivity].
+    unfold contents; simpl. f_equal. eapply add_frame; eauto.
+    + intros r Hr. apply in_map_iff in Hr. destruct Hr as [x [<- _]]. reflexivity.
+    + intros ->. congruence.
+  - unfold do_import. destruct refs as [|f refs]; [reflexivity|].
+    cbv iota. remember (f :: refs) as rfs eqn:Erfs. clear Erfs.
+    destruct (coll_type s c) as [[|]|] eqn:Ec; try reflexivity.
+    destruct (negb (forallb _ _)); [reflexivity|]. destruct (negb (forallb _ _)); [reflexivity|].
+    destruct (fold_opt tag_insert [] _); [|reflexivity].
+    destruct (existsb _ _); [reflexivity|]. destruct (existsb _ _); [reflexivity|]. destruct (existsb _ _); [reflexivity|].
+    match goal with |- context [fold_opt ds_insert ?a ?b] => destruct (fold_opt ds_insert a b) as [ds'|] eqn:Ed end; [|reflexivity].
+    match goal with |- context [fold_opt tag_insert (tags s) ?b] => destruct (fold_opt tag_insert (tags s) b) as [tg'|] eqn:Et end; [|reflexivity].
+    unfold contents; simpl. f_equal. eapply add_frame; eauto.
+    + intros r Hr. apply in_map_iff in Hr. destruct Hr as [x [<- _]]. reflexivity.
+    + intros ->. congruence.
 Qed.
